@@ -688,6 +688,50 @@ func main() {
 			})
 			constIface = lhs == "ctyp" && conv == "ctyp" && strings.Contains(src(fd), "ctyp := typ") && strings.Contains(src(fd), "!n.typ.assignableTo(typ)")
 		}
+		// comparison: the channel pairs exempted from the identity test of non-interface operands
+		chanCmp := ".other " + common.LeanStr("unrecognised: comparison")
+		if fd := common.FindFunc(tc, "typecheck", "comparison"); fd != nil {
+			const pre = "!isInterface(t0) && !isInterface(t1) && !t0.isNil() && !t1.isNil() && t0.untyped == t1.untyped && t0.id() != t1.id() && !typeDefined(t0, t1)"
+			ast.Inspect(fd, func(n ast.Node) bool {
+				is, ok := n.(*ast.IfStmt)
+				if !ok || !strings.HasPrefix(src(is.Cond), pre) {
+					return true
+				}
+				switch rest := strings.TrimPrefix(src(is.Cond), pre); rest {
+				case "":
+					chanCmp = ".identical"
+				case ` && !(isChan(t0) && isChan(t1) && (t0.name == "" || t1.name == ""))`:
+					chanCmp = ".unnamedPair"
+				case " && !chanComparable(t0, t1)":
+					chanCmp = ".other " + common.LeanStr("unrecognised: chanComparable")
+					if cd := common.FindFunc(tc, "", "chanComparable"); cd != nil {
+						var parts []string
+						for _, st := range cd.Body.List {
+							parts = append(parts, src(st))
+						}
+						if strings.Join(parts, " ; ") == `if !isChan(t0) || !isChan(t1) || t0.name != "" && t1.name != "" { return false } ; `+
+							`if t0.TypeOf().ChanDir() != reflect.BothDir && t1.TypeOf().ChanDir() != reflect.BothDir { return false } ; `+
+							`e0, e1 := chanElement(t0), chanElement(t1) ; return e0 != nil && e1 != nil && e0.id() == e1.id()` {
+							chanCmp = ".sameElemOneBidir"
+						}
+					}
+				default:
+					chanCmp = ".other " + common.LeanStr(rest)
+				}
+				return false
+			})
+		}
+		// shift: the constant.Value assertion of the shifted operand is guarded; a negative signed constant count is an error
+		shiftBool, shiftNeg := false, false
+		if fd := common.FindFunc(tc, "typecheck", "shift"); fd != nil {
+			shiftBool = strings.Contains(src(fd), "if c, ok := c0.rval.Interface().(constant.Value); ok { v0 = constant.ToInt(c) c0.rval = reflect.ValueOf(v0) }") &&
+				!strings.Contains(src(fd), "v0 = constant.ToInt(c0.rval.Interface().(constant.Value))")
+			if cc := innerCase(fd, "isInt(t1)"); cc != nil && src(cc.List[0]) == "isInt(t1)" && len(cc.Body) == 1 {
+				if is, ok := cc.Body[0].(*ast.IfStmt); ok && src(is.Cond) == "c1.rval.IsValid() && !isUint(t1) && vInt(c1.rval) < 0" && setsErr(is.Body) {
+					shiftNeg = true
+				}
+			}
+		}
 		fmt.Fprintf(&b, `/-- interp/typecheck.go unaryOpPredicates, binaryOpPredicates, bitlen; interp/type.go kind predicates -/
 def opFacts : OpFacts :=
   { unary :=
@@ -702,9 +746,12 @@ def opFacts : OpFacts :=
     signedRepr := %s,
     convNilBoolGuard := %v,
     assignNilGuard := %v,
-    constIfaceChecked := %v }
+    constIfaceChecked := %v,
+    cmpChanExempt := %s,
+    shiftBoolGuard := %v,
+    shiftNegChecked := %v }
 `, table(tc, "unaryOpPredicates"), table(tc, "binaryOpPredicates"), strings.Join(pk, ",\n     "), strings.Join(pc, ",\n     "), strings.Join(bl, ", "), signedRepr,
-			convGuard, nilGuard, constIface)
+			convGuard, nilGuard, constIface, chanCmp, shiftBool, shiftNeg)
 
 		// ---- call sites and guards
 		cl := cfgClauses(cfg)
@@ -990,6 +1037,70 @@ def opFacts : OpFacts :=
 				arrLit = ".other " + common.LeanStr(bound[0])
 			}
 		}
+		// round 5
+		opTypeOperand, shiftCtx := false, false
+		if c := lastClause(cl, "binaryExpr"); c != nil {
+			ast.Inspect(c, func(n ast.Node) bool {
+				cc, ok := n.(*ast.CaseClause)
+				if !ok {
+					return true
+				}
+				var names []string
+				for _, e := range cc.List {
+					names = append(names, src(e))
+				}
+				if strings.Join(names, ",") == "aAdd,aSub,aMul,aQuo,aAnd,aOr,aXor,aAndNot" && len(cc.Body) == 1 &&
+					src(cc.Body[0]) == "switch { case n.typ == nil: case !c0.typ.untyped: n.typ = c0.typ case !c1.typ.untyped: n.typ = c1.typ }" {
+					opTypeOperand = true
+				}
+				return true
+			})
+			for _, st := range c.Body {
+				if is, ok := st.(*ast.IfStmt); ok && src(is.Cond) == "isShiftNode(n) && isUntypedConst(c0) && !c1.rval.IsValid()" && setsErr(is.Body) {
+					shiftCtx = true
+				}
+			}
+		}
+		indexZero := false
+		if fd := common.FindFunc(tc, "typecheck", "index"); fd != nil {
+			for _, st := range fd.Body.List {
+				if is, ok := st.(*ast.IfStmt); ok && src(is.Cond) == "max < 0" && endsWith(is.Body, "return nil") {
+					indexZero = true
+				}
+			}
+		}
+		sliceUnbounded := false
+		if fd := common.FindFunc(tc, "typecheck", "arrayLitExpr"); fd != nil {
+			sliceUnbounded = strings.Contains(src(fd), "if cat != arrayT { length = -1 }")
+		}
+		nilReported := false
+		{
+			a, bb, cc, dd := false, false, false, false
+			if c := clauseWith(cl, "assignStmt", "check.assignExpr(n, dest, src)"); c != nil {
+				a = strings.Contains(src(c), `if src.typ.isNil() { err = src.cfgErrorf("use of untyped nil in assignment") return }`)
+			}
+			if fd := common.FindFunc(ty, "itype", "convertibleTo"); fd != nil && len(fd.Body.List) > 1 {
+				bb = src(fd.Body.List[0]) == "if t.assignableTo(o) { return true }" && src(fd.Body.List[1]) == "if t.isNil() { return false }"
+			}
+			if fd := common.FindFunc(ty, "", "isBool"); fd != nil {
+				cc = src(fd.Body) == "{ return isBoolean(t.TypeOf()) }"
+			}
+			if fd := common.FindFunc(tc, "typecheck", "typeAssertionExpr"); fd != nil {
+				dd = findIf(fd, "rt == nil || rt.Kind() != reflect.Interface && rt != valueInterfaceType") != nil
+			}
+			nilReported = a && bb && cc && dd
+		}
+		convNumeric := false
+		if fd := common.FindFunc(tc, "typecheck", "conversion"); fd != nil {
+			if cc := innerCase(fd, "c == nil && n.rval.IsValid() && isNumber(n.typ.TypeOf()) && isNumber(typ.TypeOf())"); cc != nil &&
+				src(cc.List[0]) == "c == nil && n.rval.IsValid() && isNumber(n.typ.TypeOf()) && isNumber(typ.TypeOf())" && len(cc.Body) == 1 && src(cc.Body[0]) == "ok = true" {
+				convNumeric = true
+			}
+		}
+		callConv := false
+		if fd := common.FindFunc(tc, "typecheck", "callValue"); fd != nil {
+			callConv = findIf(fd, "anc.child[0] != c && !anc.child[0].isType(check.scope)") != nil
+		}
 		fmt.Fprintf(&b, `/-- interp/cfg.go call sites of the checker and guards; interp/typecheck.go arguments -/
 def tcFacts : TcFacts :=
   { ops := opFacts,
@@ -1012,9 +1123,17 @@ def tcFacts : TcFacts :=
     recvAssign := %s,
     callValueChecked := %v,
     convTypedConstChecked := %v,
-    arrayLitBound := %s }
+    arrayLitBound := %s,
+    opTypeFromOperand := %v,
+    shiftUntypedCtx := %v,
+    indexZeroLenChecked := %v,
+    arrayLitSliceUnbounded := %v,
+    nilOperandsReported := %v,
+    convTypedNumericOk := %v,
+    callValueConvChecked := %v }
 `, landLor, send, sendDir, argCmp, retMany, retFew, guardedAll, assertSkip, retConst, cmpErrKept, zeroMode, opAssignZero, quoFloat,
-			indexNeg, indexOperand, recvDecl, recvAssign, callValue, convTyped, arrLit)
+			indexNeg, indexOperand, recvDecl, recvAssign, callValue, convTyped, arrLit,
+			opTypeOperand, shiftCtx, indexZero, sliceUnbounded, nilReported, convNumeric, callConv)
 
 		// ---- pipeline
 		funcs, err := pkgFuncs(repo)
@@ -1109,7 +1228,7 @@ def pipeline : PipelineFacts :=
 			"arrayLitExpr", "mapLitExpr", "structLitExpr", "structBinLitExpr", "sliceExpr", "addressExpr", "starExpr", "switchCases", "builtin", "constExpr"} {
 			row("typecheck."+fn, common.FuncHash(fsetT, tc, "typecheck", fn))
 		}
-		for _, fn := range []string{"zeroConst", "getArg", "representableConst", "isShiftAction", "isComparisonAction", "isComparison"} {
+		for _, fn := range []string{"zeroConst", "getArg", "representableConst", "isShiftAction", "isComparisonAction", "isComparison", "chanComparable"} {
 			row(fn, common.FuncHash(fsetT, tc, "", fn))
 		}
 		for _, fn := range []string{"assignableTo", "convertibleTo", "ordered", "equals", "comparable", "implements", "defaultType", "hasNil", "isNil",
